@@ -329,7 +329,7 @@ func valueReads(info *types.Info, s *eng.RewriteSite, lit ast.Node, kindName str
 // under which the UnaryNode / BinaryNode clauses act — written as labels of a nested switch or
 // as equality tests of the node's Operator field; also whether an IntegerNode clause exists and
 // whether it calls SetType.
-func operatorsOfNodeSwitch(info *types.Info, nk *eng.NodeKinds, fd *ast.FuncDecl) (ops map[string]bool, hasInt, sets bool) {
+func operatorsOfNodeSwitch(p *core.Program, info *types.Info, nk *eng.NodeKinds, fd *ast.FuncDecl) (ops map[string]bool, hasInt, sets bool) {
 	ops = map[string]bool{}
 	var ts *ast.TypeSwitchStmt
 	for _, st := range fd.Body.List {
@@ -384,6 +384,16 @@ func operatorsOfNodeSwitch(info *types.Info, nk *eng.NodeKinds, fd *ast.FuncDecl
 							}
 						}
 					}
+				case *ast.CallExpr:
+					// the operator test named: `isSignOperator(n.Operator)` — the strings the
+					// predicate compares its parameter with
+					for i, a := range x.Args {
+						if sel, ok := eng.Unparen(a).(*ast.SelectorExpr); ok && sel.Sel.Name == "Operator" {
+							for _, v := range stringsComparedWithParam(p, info, x, i) {
+								ops[pre+v] = true
+							}
+						}
+					}
 				}
 				return true
 			})
@@ -392,13 +402,71 @@ func operatorsOfNodeSwitch(info *types.Info, nk *eng.NodeKinds, fd *ast.FuncDecl
 	return ops, hasInt, sets
 }
 
+// stringsComparedWithParam: the string constants that the callee of call (a function of the
+// same package with a body) compares its i-th parameter with, by == or as labels of a switch
+// on the parameter.
+func stringsComparedWithParam(p *core.Program, info *types.Info, call *ast.CallExpr, i int) []string {
+	fn := eng.CalleeOf(info, call)
+	if fn == nil {
+		return nil
+	}
+	_, pfd := p.DeclOf(fn)
+	if pfd == nil || pfd.Body == nil || pfd.Type.Params == nil {
+		return nil
+	}
+	var param types.Object
+	k := 0
+	for _, f := range pfd.Type.Params.List {
+		for _, nm := range f.Names {
+			if k == i {
+				param = info.Defs[nm]
+			}
+			k++
+		}
+	}
+	if param == nil {
+		return nil
+	}
+	isParam := func(e ast.Expr) bool {
+		id, ok := eng.Unparen(e).(*ast.Ident)
+		return ok && info.Uses[id] == param
+	}
+	var out []string
+	ast.Inspect(pfd.Body, func(n ast.Node) bool {
+		switch x := n.(type) {
+		case *ast.BinaryExpr:
+			if x.Op == token.EQL || x.Op == token.NEQ {
+				for _, side := range [][2]ast.Expr{{x.X, x.Y}, {x.Y, x.X}} {
+					if isParam(side[0]) {
+						if v, ok := constStringOf(info, side[1]); ok {
+							out = append(out, v)
+						}
+					}
+				}
+			}
+		case *ast.SwitchStmt:
+			if x.Tag != nil && isParam(x.Tag) {
+				for _, c := range x.Body.List {
+					for _, e := range c.(*ast.CaseClause).List {
+						if v, ok := constStringOf(info, e); ok {
+							out = append(out, v)
+						}
+					}
+				}
+			}
+		}
+		return true
+	})
+	return out
+}
+
 func retypableOperators(p *core.Program, nk *eng.NodeKinds) (map[string]bool, string) {
 	info := p.Pkg("checker").TypesInfo
 	for _, fd := range p.FuncDecls("checker") {
 		if fd.Body == nil {
 			continue
 		}
-		ops, _, sets := operatorsOfNodeSwitch(info, nk, fd)
+		ops, _, sets := operatorsOfNodeSwitch(p, info, nk, fd)
 		if !sets {
 			continue
 		}
@@ -410,7 +478,7 @@ func retypableOperators(p *core.Program, nk *eng.NodeKinds) (map[string]bool, st
 						if c, ok := eng.Unparen(u.X).(*ast.CallExpr); ok {
 							if fn := eng.CalleeOf(info, c); fn != nil {
 								if _, pfd := p.DeclOf(fn); pfd != nil && pfd.Body != nil {
-									ops, _, _ = operatorsOfNodeSwitch(info, nk, pfd)
+									ops, _, _ = operatorsOfNodeSwitch(p, info, nk, pfd)
 								}
 							}
 						}
@@ -716,6 +784,35 @@ func c02Errors(p *core.Program, r *core.Report) {
 				// (b) inside a deferred closure that calls recover
 				inRecover := false
 				divCase, zeroTest := false, false
+				// … or in a function that calls recover itself and is only ever deferred (the
+				// handler extracted: `defer c.recoverAt(node)`)
+				if self, ok := info.Defs[fd.Name].(*types.Func); ok && callsRecoverDirectly(info, fd.Body) {
+					uses, deferred := 0, 0
+					for _, ofd := range p.FuncDecls("optimizer") {
+						if ofd.Body == nil {
+							continue
+						}
+						dcalls := map[*ast.CallExpr]bool{}
+						ast.Inspect(ofd.Body, func(m ast.Node) bool {
+							switch x := m.(type) {
+							case *ast.DeferStmt:
+								dcalls[x.Call] = true
+							case *ast.Ident:
+								if info.Uses[x] == types.Object(self) {
+									uses++
+								}
+							case *ast.CallExpr:
+								if dcalls[x] && eng.CalleeOf(info, x) == self {
+									deferred++
+								}
+							}
+							return true
+						})
+					}
+					if uses > 0 && uses == deferred {
+						inRecover = true
+					}
+				}
 				for i, anc := range stack {
 					if fl, ok := anc.(*ast.FuncLit); ok && callsRecover(info, fl) {
 						if i > 0 {
@@ -1000,11 +1097,16 @@ func c02RangeShape(p *core.Program, r *core.Report, nk *eng.NodeKinds, sites []*
 					op, _ = constStringOf(info, kv.Value)
 				}
 			}
+			// some fact that holds at the call — the condition of an enclosing if, the negation
+			// of an earlier guard clause, possibly named first (`negated := n.Operator == "not in"`) —
+			// says that the operator is `not in`
 			guard := false
-			for _, anc := range s.Stack {
-				if is, ok := anc.(*ast.IfStmt); ok {
-					if b, ok := eng.Unparen(is.Cond).(*ast.BinaryExpr); ok && b.Op == token.EQL {
-						if v, ok := constStringOf(info, b.Y); ok && v == "not in" {
+			defs := eng.SingleDefs(info, s.Func.Body)
+			for _, f := range eng.FactsAt(s.Func.Body, s.Call) {
+				for _, c := range eng.Conjuncts(defs.Resolve(f), false) {
+					isOp := func(e ast.Expr) bool { return strings.HasSuffix(eng.ExprStr(e), ".Operator") }
+					if _, y, op, ok := eng.CmpOn(c, isOp); ok && op == token.EQL {
+						if v, ok := constStringOf(info, y); ok && v == "not in" {
 							guard = true
 						}
 					}
